@@ -263,7 +263,7 @@ def _indep(ck, p):
     fr = tg.ty(*root).get("freeze")
     ck.decide(rule, "Document:rustc-freeze", fr is True, "", "rustc: Document: Freeze = %s" % fr)
     impls = p.impls_of_method("harper_core::linting::Linter::lint")
-    ck.floor(rule, "impls of Linter::lint", len(impls), 25)
+    ck.floor(rule, "impls of Linter::lint", len(impls), 15)
     bad = []
     for f in impls:
         ck.saw(f)
@@ -291,7 +291,7 @@ def _aggregate(ck, p, byk):
     pv = Prov(f)
     vecs = set(_vec_lint_locals(f))
     named = {l: n for l, n in f.debug_names().items() if l in vecs}
-    ck.floor(rule, "named Vec<Lint> result vectors in LintGroup::lint", len(named), 3)
+    ck.floor(rule, "named Vec<Lint> result vectors in LintGroup::lint", len(named), 2)
     ops = {}
     for bi, t in f.calls():
         for ai, a in enumerate(t["args"]):
@@ -541,7 +541,7 @@ def _overlay(ck, p, byk):
         for bi, t in f.calls():
             if inst_of(t) == "harper_core::linting::lint_group::{impl}::fill_with_curated" and not f.name.startswith("harper_core::linting::lint_group::"):
                 sites.append((f, bi, t))
-    ck.floor(rule, "overlay sites (fill_with_curated callers outside lint_group.rs)", len(sites), 3)
+    ck.floor(rule, "overlay sites (fill_with_curated callers outside lint_group.rs)", len(sites), 1)
     for f, bi, t in sites:
         ck.saw(f)
         key = keyname(p, f)
